@@ -4,7 +4,7 @@ from vlib import std, lab, common, hbuild, recipes, coq, corr
 
 PID = "C63"
 META = {
-    "text": "Theorems (Properties_C63.v, closed under the global context), over ALL header blocks, host names, application strings, methods, HTTP versions, cache states: (1) strstr model = 'exists a b, hay = a ++ needle ++ b'; loop detection is exactly 'the joined Via value contains \" <host> (<app>)\"'; (2) what this Squid appends (addVia) is recognised when it comes back in any Via field, at any list position, whatever later hops appended (round trip of Via construction and detection); (3) a request carrying such an entry is answered locally (403, or 501/200 for OPTIONS/TRACE with Max-Forwards 0, or a fresh hit) unless the store lookup gives a STALE entry (_partial); REFUTED at full strength three ways, each replayed against the running proxy: stale hit + own Via is revalidated upstream (processExpired ignores loopDetected), own host name in another letter case, own entry without the (squid/x) comment; (4) OPTIONS/TRACE whose first Max-Forwards parses to 0 is never forwarded; canonical decimals parse to their value (strtoll model); (5) every Max-Forwards value sent upstream is a received value minus one, >= 0, only on TRACE/OPTIONS, no int64 overflow; a single decimal Max-Forwards n with 0 < n <= INT64_MAX is forwarded as n-1 (_partial); REFUTED beyond int64: Max-Forwards 9223372036854775808 is dropped instead of decremented. Tie: APP_FULLNAME, int64 limits, isspace table, header ids regenerated from the code each run; extracted model diffed against the real squid binary (built from the working tree) between a scripted origin and client on generated Via lists x Max-Forwards values x methods x cache states; strtoll/strstr/addVia models additionally diffed against the real functions in a unit harness.",
+    "text": "Theorems (Properties_C63.v, closed under the global context), over ALL header blocks, host names, application strings, methods, HTTP versions, cache states: (1) strstr model = 'exists a b, hay = a ++ needle ++ b'; loop detection is exactly 'the joined Via value contains \" <host> (<app>)\"'; (2) what this Squid appends (addVia) is recognised when it comes back in any Via field, at any list position, whatever later hops appended (round trip of Via construction and detection); (3) a request for which the loop test fires is NEVER forwarded -- every method, version and store state incl. stale hits (cacheHit sends a detected loop to processMiss since repair c010c4f; regression scenarios corpus/C63/regress.jsonl); a request this Squid forwarded earlier and that comes back is never forwarded again (full); the property's first sentence is _partial for ONE reason: \"names this Squid\" is proved for entries written as Squid writes them, and REFUTED (each witness replayed against the running proxy) for the own host name in another letter case and for the own entry without the (squid/x) comment (known finding F15); (4) OPTIONS/TRACE whose first Max-Forwards parses to 0 is never forwarded; canonical decimals parse to their value (strtoll model); (5) every Max-Forwards value sent upstream is a received value minus one, >= 0, only on TRACE/OPTIONS, no int64 overflow; a single decimal Max-Forwards n with 0 < n <= INT64_MAX is forwarded as n-1 (_partial); REFUTED beyond int64: Max-Forwards 9223372036854775808 is dropped instead of decremented. Tie: APP_FULLNAME, int64 limits, isspace table, header ids regenerated from the code each run; extracted model diffed against the real squid binary (built from the working tree) between a scripted origin and client on generated Via lists x Max-Forwards values x methods x cache states; strtoll/strstr/addVia models additionally diffed against the real functions in a unit harness.",
     "note": "partial: theorems are about the transcribed decision functions (LoopmfModel.v); that the event-driven proxy takes exactly these branches (clientProcessRequest -> clientInterpretRequestHeaders -> clientGetMoreData -> cacheHit/processMiss/processExpired -> httpBuildRequestHeader) rests on the end-to-end correspondence. Store lookup result and freshness verdict are inputs of the model (set up by priming the cache in the lab). Not covered: CDN-Loop (accelerator mode), peers, only-if-cached, via off, request-target '*'. Trusted: Coq kernel, extraction, gen/gen_loopmf.cc, vlib/lab.py stubs.",
     "technique": "Coq proof (induction on byte lists for strstr/strtoll/decimal printing, case analysis of the decision function, vm_compute witnesses for refutations) + end-to-end differential correspondence of the extracted model against the running squid + unit-level correspondence for strtoll/strstr/addVia + independent oracle (RFC 7230 Via grammar, RFC 7231 Max-Forwards)",
 }
@@ -257,8 +257,7 @@ def oracle(s, obs):
                         kinds.append(how)
         if kinds:
             if "exact" in kinds:
-                stale_hit = s["cache"] == "stale" and not s.get("nocache") and s["method"] in ("GET", "HEAD") and "cond=1" in obs
-                if stale_hit:
+                if "cond=1" in obs:      # F16, repaired in /repo c010c4f -- a regression if it shows again
                     return ("oracle:own-via-forwarded:stale-revalidation",
                             "the request's Via carries this Squid's own entry, yet the stale cached object was revalidated upstream: " + obs[:80])
                 return ("oracle:own-via-forwarded:exact-entry",
